@@ -5,19 +5,12 @@ package main
 import (
 	"fmt"
 	"os"
-	"runtime/pprof"
 
 	"verifharness/vkit"
 )
 
 func main() {
 	r := vkit.Start("exploration")
-	if p := os.Getenv("VSPDY_PROF"); p != "" { // development only
-		if f, err := os.Create(p); err == nil {
-			pprof.StartCPUProfile(f)
-			defer pprof.StopCPUProfile()
-		}
-	}
 	switch r.Prop {
 	case "C40":
 		c40(r)
@@ -25,6 +18,5 @@ func main() {
 		fmt.Fprintln(os.Stderr, "vspdy: unknown property", r.Prop)
 		os.Exit(vkit.ExitInconclusive)
 	}
-	pprof.StopCPUProfile()
 	r.Finish()
 }
